@@ -63,19 +63,36 @@ func vOf(n N) string { s, _ := n["v"].(string); return s }
 
 // ------------------------------------------------------------------------------------------ concretise
 
+// symbols of the string alphabet in spec/Codec.tla whose text is not the symbol itself
+var symText = map[string]string{
+	"e9":     string(rune(0xE9)),
+	"uFFFD":  "a" + string(rune(0xFFFD)) + "b",
+	"u1F600": string(rune(0x1F600)),
+	"uFEFF":  string(rune(0xFEFF)) + "x",
+	"u2028":  "a" + string(rune(0x2028)) + "b",
+	"sp":     " x ",
+}
+var textSym = func() map[string]string {
+	m := map[string]string{}
+	for k, v := range symText {
+		m[v] = k
+	}
+	return m
+}()
+
 func strText(sym string) string {
-	switch {
-	case sym == "e9":
-		return "é"
-	case len(sym) > 1 && sym[0] == 'S' && strings.Trim(sym[1:], "0123456789") == "":
+	if t, ok := symText[sym]; ok {
+		return t
+	}
+	if len(sym) > 1 && sym[0] == 'S' && strings.Trim(sym[1:], "0123456789") == "" {
 		n, _ := strconv.Atoi(sym[1:])
 		return strings.Repeat("x", n)
 	}
 	return sym
 }
 func strSym(text string) string {
-	if text == "é" {
-		return "e9"
+	if s, ok := textSym[text]; ok {
+		return s
 	}
 	if len(text) >= 1000 && strings.Trim(text, "x") == "" {
 		return "S" + strconv.Itoa(len(text))
